@@ -10,6 +10,9 @@ with relative tolerance 2^-40 otherwise.
 Monitor: the mathematical definition (first publication at/after t, last at/before t, linear
 interpolant, step interpolant) recomputed here with Fractions from the publication history.
 """
+import gc
+import os
+import tempfile
 from bisect import bisect_left, bisect_right
 from collections import Counter
 from fractions import Fraction
@@ -29,7 +32,9 @@ RULE = (
     "with consumer requests on / between / across several publications and exactly at the step position, for "
     "NextTime, PreviousTime, LinearTime and StepTime(step in {0,1/4,1/2,1,1/8,3/4,1/3,2/3,1/10,3/10}), scalar and "
     "small gridded payloads, plus a malformed stream (requests before the first / after the last publication, "
-    "pulls before any publication); non-trivial = at least 3 publications, at least two "
+    "pulls before any publication); a quarter of the cases give the adapter a memory limit (0 / 1.5 payloads / huge) "
+    "with one spill directory per worker process and are preceded by another coupling (other payloads) in the "
+    "same process and directory; non-trivial = at least 3 publications, at least two "
     "successful pulls in at least two different publication intervals, one of them strictly between publications; "
     "distinct by canonical case hash"
 )
@@ -133,7 +138,8 @@ def _gen_case(rng, malformed, kind=None):
         ops.append(["pull", r])
         if pubs[0] <= r <= pubs[-1]:
             last_req = r if last_req is None else max(r, last_req)
-    return {"kind": kind, "step": step, "shape": shape, "exact": exact, "ops": ops}
+    mem = rng.choice([0, "mid", "huge"]) if rng.random() < 0.25 else None
+    return {"kind": kind, "step": step, "shape": shape, "exact": exact, "mem": mem, "ops": ops}
 
 
 def _daily(vals):
@@ -141,6 +147,17 @@ def _daily(vals):
 
 
 CORPUS = [
+    # buffer spilled to a directory shared with an earlier coupling of the same process (seeded C11_d)
+    {"kind": "linear", "step": None, "shape": [2], "exact": True, "mem": 0,
+     "ops": [["push", 0, [1.0, -1.0]], ["push", 8, [3.0, 0.5]], ["pull", 0], ["pull", 2], ["pull", 6], ["push", 16, [4.0, 8.5]],
+             ["pull", 8], ["pull", 12], ["pull", 16]]},
+    {"kind": "prev", "step": None, "shape": [], "exact": False, "mem": "mid",
+     "ops": _daily([0.5, -3.25, 7.0, 7.0]) + [["pull", 0], ["pull", DAY // 3], ["pull", DAY], ["pull", DAY + 5], ["pull", 3 * DAY]]},
+    {"kind": "step", "step": [1, 2], "shape": [2, 2], "exact": False, "mem": 0,
+     "ops": [["push", 0, [1.0, 2.0, 3.0, 4.0]], ["push", 10, [5.0, 6.0, 7.0, 8.0]], ["pull", 4], ["pull", 5], ["pull", 6],
+             ["push", 30, [-1.0, -2.0, -3.0, -4.0]], ["pull", 10], ["pull", 21], ["pull", 30]]},
+    {"kind": "next", "step": None, "shape": [], "exact": False, "mem": 0,
+     "ops": _daily([0.5, -3.25, 7.0]) + [["pull", 1], ["pull", DAY], ["pull", DAY + 1], ["pull", 2 * DAY]]},
     # tests/adapters/test_time.py style: daily series, value = day number
     {"kind": "linear", "step": None, "shape": [], "exact": False,
      "ops": _daily([0, 1]) + [["pull", 0], ["pull", DAY // 2]] + [["push", 2 * DAY, [2.0]]]
@@ -192,7 +209,39 @@ def make_grid(shape):
     return fm.UniformGrid(tuple(s + 1 for s in shape))
 
 
-def run_impl(case):
+def spill_dir():
+    """ONE spill directory per worker process, shared by all cases this process runs (outside /repo and /verif)."""
+    d = os.path.join(tempfile.gettempdir(), f"verif_spill_{os.getpid()}")
+    os.makedirs(d, exist_ok=True)
+    return d
+
+
+def set_memory(ada, case, n):
+    """memory limit of the adapter's buffer: 0 = everything spilled, 'mid' = 1.5 payloads (crossed mid-run),
+    'huge' = never crossed.  Spilling must be invisible (C10): the model is unchanged."""
+    mem = case.get("mem")
+    if mem is None:
+        return
+    ada.memory_limit = {0: 0, "mid": int(1.5 * 8 * n), "huge": 10**12}[mem if mem == 0 else str(mem)]
+    ada.memory_location = spill_dir()
+
+
+def ghost_values(vs):
+    return [0.5 * v + 1000.25 for v in vs]
+
+
+def end_of_link(ada):
+    try:
+        ada.finalize()      # removes the spill files this adapter still owns
+    except Exception:  # noqa
+        pass
+    try:
+        os.rmdir(spill_dir())   # only succeeds when nothing was left behind; same path is re-created next time
+    except OSError:
+        pass
+
+
+def _run_link(case, ghost):
     t0 = T(0)
     shape = case["shape"]
     grid = make_grid(shape)
@@ -200,23 +249,38 @@ def run_impl(case):
     out = fm.Output(name="Out")
     inp = fm.Input(name="In")
     ada = make_adapter(case)
+    set_memory(ada, case, n)
     out >> ada >> inp
     inp.ping()
     out.push_info(fm.Info(time=t0, grid=grid, units="m"))
     inp.exchange_info(fm.Info(time=t0, grid=grid, units="m"))
     pulls = []
-    for op in case["ops"]:
-        if op[0] == "push":
-            data = np.array(op[2], dtype=float).reshape(shape) if shape else float(op[2][0])
-            out.push_data(data, T(op[1]))
-        else:
-            try:
-                d = inp.pull_data(T(op[1]))
-                vals = [float(x) for x in np.asarray(magnitude(d), dtype=float).reshape(-1)]
-                pulls.append(["ok", vals])
-            except Exception as e:  # noqa
-                pulls.append([err_class(e)])
+    try:
+        for op in case["ops"]:
+            if op[0] == "push":
+                vs = ghost_values(op[2]) if ghost else op[2]
+                data = np.array(vs, dtype=float).reshape(shape) if shape else float(vs[0])
+                out.push_data(data, T(op[1]))
+            else:
+                try:
+                    d = inp.pull_data(T(op[1]))
+                    vals = [float(x) for x in np.asarray(magnitude(d), dtype=float).reshape(-1)]
+                    pulls.append(["ok", vals])
+                except Exception as e:  # noqa
+                    pulls.append([err_class(e)])
+    finally:
+        end_of_link(ada)
     return {"n": n, "pulls": pulls}
+
+
+def run_impl(case):
+    gc.collect()        # drop the previous case's objects so that object ids get reused
+    if case.get("mem") is not None:
+        # an earlier coupling in the same process, same adapter kind and spill directory, other payloads:
+        # what it stored must never show up in the link under test
+        _run_link(case, ghost=True)
+        gc.collect()
+    return _run_link(case, ghost=False)
 
 
 def Z(n):
@@ -359,7 +423,8 @@ def distribution(cases, obss):
     res = Counter(r[0] for o in obss if "pulls" in o for r in o["pulls"])
     exact = sum(1 for c in cases if c["exact"])
     nops = Counter(min(len(c["ops"]) // 10 * 10, 40) for c in cases)
-    return {"kinds": dict(kinds), "step_positions": dict(steps), "payload_shapes": dict(shapes),
+    mems = Counter(str(c.get("mem")) for c in cases)
+    return {"kinds": dict(kinds), "step_positions": dict(steps), "payload_shapes": dict(shapes), "memory_limit": dict(mems),
             "pull_results": dict(res), "exact_dyadic_linear_cases": exact, "ops_per_case_bucket": dict(nops)}
 
 
